@@ -270,7 +270,7 @@ def build_extracted(area, timeout=900):
     ex = os.path.join(COQ, "Extract", "Extract_%s.v" % area)
     drv = os.path.join(VERIF, "ocaml", "%s_driver.ml" % area)
     exe = os.path.join(d, "vmodel")
-    coq_build()   # make sure every .vo the extraction file needs is current (no-op when up to date)
+    coq_build(targets=["Extract/Extract_%s.vo" % area])   # every .vo the extraction file needs (and a throw-away extraction in coq/)
     with Lock("ocaml-" + area):
         vos = glob.glob(os.path.join(COQ, "**", "*.vo"), recursive=True)
         newest = max([os.path.getmtime(p) for p in vos + [ex, drv]] or [0])
